@@ -18,7 +18,9 @@ def seed():
 
 
 def rundir(pid, tier):
-    d = os.path.join(RUN, "%s_%s" % (pid, tier))
+    # VERIF_RUNTAG: a second run of the same check at the same time (against a scratch copy of the repository, VERIF_REPO) gets
+    # its own scratch directory and writes its evidence next to it instead of over the committed one
+    d = os.path.join(RUN, "%s_%s%s" % (pid, tier, os.environ.get("VERIF_RUNTAG", "")))
     shutil.rmtree(d, ignore_errors=True)
     os.makedirs(d, exist_ok=True)
     return d
@@ -87,8 +89,9 @@ class Check:
         ev = {"property_id": self.pid, "tier": self.tier, "seed": self.seed, "level": self.level,
               "coverage": cov, "assumptions": self.assumptions, "wall_s": round(wall, 2),
               "violations": len(self.violations)}
-        os.makedirs(EVID, exist_ok=True)
-        with open(os.path.join(EVID, self.pid + ".json"), "w") as fh:
+        evdir = self.dir if os.environ.get("VERIF_RUNTAG") else EVID
+        os.makedirs(evdir, exist_ok=True)
+        with open(os.path.join(evdir, self.pid + ".json"), "w") as fh:
             json.dump(ev, fh, indent=1, default=str)
         for f in self.known:
             print("KNOWN-FINDING: property=%s %s (%s)" % (self.pid, f["what"], f["id"]))
